@@ -1,6 +1,6 @@
 (* BrokerExamples.v — non-vacuity: concrete histories that meet the hypotheses of the registry theorems. *)
 From Coq Require Import List Bool Arith NArith ZArith Lia.
-From Verif Require Import Alist Broker BrokerProofs.
+From Verif Require Import Alist Broker BrokerProofs BrokerClose.
 Import ListNotations.
 Open Scope N_scope.
 
@@ -37,3 +37,10 @@ Example reopen_ok : reopen_graphs (fun _ => false) (graphs_of (run nocf h1)) = (
 Proof. vm_compute. reflexivity. Qed.
 Example reopen_fail : snd (reopen_graphs (N.eqb 12) (graphs_of (run nocf h1))) = [12].
 Proof. vm_compute. reflexivity. Qed.
+
+Example fresh_history_closes :
+  NoDup (reg_objs h1) /\ closed_in nocf b0 (h1 ++ [RemovePipelineAndNodes 1 2; RemovePipelineAndNodes 2 1; RemovePipelineAndNodes 1 1]) = [11; 12; 13].
+Proof.
+  split; [|vm_compute; reflexivity]. cbn [reg_objs h1].
+  repeat (constructor; [cbn; intuition discriminate|]). constructor.
+Qed.
